@@ -168,6 +168,7 @@ structure CBelt where
   arrivals : List Arr := []
   gotLog : List Item := []
   stuck : List Nat := []                    -- put ordinals whose move process ended without delivering (D12)
+  everStalled : Bool := false               -- the state machine has entered a STALLED state at least once
   deriving Repr, Inhabited
 
 namespace CBelt
@@ -287,7 +288,7 @@ def cancelDelayed (s : CBelt) : CBelt :=
 
 def setState (s : CBelt) (new : CState) : CBelt :=
   let old := s.st
-  let s1 := { s with st := new }
+  let s1 := { s with st := new, everStalled := s.everStalled || new.stalled }
   if !old.stalled && new.stalled then
     (if !s.cfg.acc then { s1 with noacc := true } else s1).selectiveInterrupt
   else if old.stalled && !new.stalled then
